@@ -628,6 +628,9 @@ func TestC12(t *testing.T) {
 	tr := anthropic.NewTranslator(world.Logger(), config.AnthropicTranslatorConfig{Enabled: true, MaxMessageSize: 10 << 20})
 	ctx := context.Background()
 	n := rep.Pick(30000, 600000)
+	if rep.Mode() == "race" {
+		n = rep.Pick(6000, 60000)
+	}
 	// 8 workers share the one translator, as concurrent requests do in production (its
 	// pooled buffers must not leak between requests); each worker's case list is determined
 	// by the seed.
@@ -659,8 +662,8 @@ func TestC12(t *testing.T) {
 	}
 	throughStack(run, g, rng)
 	run.Require("api_cases", int64(n))
-	run.Require("stack_valid_cases", int64(rep.Pick(350, 5000)))
-	run.Require("stack_invalid_cases", int64(rep.Pick(80, 1000)))
+	run.Require("stack_valid_cases", int64(rep.Pick(350, 5000)/map[bool]int{true: 5, false: 1}[rep.Mode() == "race"]))
+	run.Require("stack_invalid_cases", int64(rep.Pick(80, 1000)/map[bool]int{true: 5, false: 1}[rep.Mode() == "race"]))
 	run.Finish(t)
 }
 
@@ -717,6 +720,9 @@ func throughStack(run *rep.Run, g *gen, rng *rand.Rand) {
 	defer w.Stop()
 	hc := world.NewClient(true, 15*time.Second)
 	n := rep.Pick(600, 10000)
+	if rep.Mode() == "race" {
+		n = rep.Pick(150, 1500)
+	}
 	for i := 0; i < n; i++ {
 		doc, want := g.request()
 		invalid := rng.Intn(4) == 0
